@@ -24,10 +24,12 @@ TIERS = {
 }
 FLOORS = {"quick": {"distinct_nontrivial": 500, "foreign_char_rejections": 300,
                     "overflow_rejections": 100, "roundtrips": 5000, "wrong_length_rejections": 300,
+                    "yields_injected_inside_conversions": 20000,
                     "decorated_short_rejections": 300, "junk_around_valid_rejections": 600,
                     "case_variant_rejections": 300, "damaged_canonical_rejections": 500},
           "thorough": {"distinct_nontrivial": 5000, "foreign_char_rejections": 3000,
                        "overflow_rejections": 1000, "roundtrips": 100000, "wrong_length_rejections": 10000,
+                       "yields_injected_inside_conversions": 200000,
                        "decorated_short_rejections": 10000, "junk_around_valid_rejections": 20000,
                        "case_variant_rejections": 10000, "damaged_canonical_rejections": 15000}}
 
@@ -224,17 +226,35 @@ def one_case(ctx, rng, alpha, seen, i):
 
 
 def concurrent_roundtrips(ctx, alpha, seed):
-    """the functions are pure: concurrent callers must not disturb each other"""
+    """the functions are pure: concurrent callers must not disturb each other.  Four threads, switch interval
+    1 microsecond, and sys.monitoring LINE events local to the functions of ak.short_uuid that give the GIL
+    away (sleep(0)) with probability 1/4, so that threads really interleave inside the conversion loops"""
     import random
     import sys
     import threading
+    import time
+    import types
     errors = []
     old = sys.getswitchinterval()
     sys.setswitchinterval(1e-6)
+    mon = sys.monitoring
+    codes = [f.__code__ for f in vars(short_uuid).values() if isinstance(f, types.FunctionType)]
+    inj = random.Random(f"{seed}/inject")
+    injected = [0]
+
+    def on_line(code, line):
+        if inj.random() < 0.25:
+            injected[0] += 1
+            time.sleep(0)
+
+    mon.use_tool_id(4, "vf-c20")
+    mon.register_callback(4, mon.events.LINE, on_line)
+    for c in codes:
+        mon.set_local_events(4, c, mon.events.LINE)
 
     def worker(k):
         rng = random.Random(f"{seed}/{k}")
-        for _ in range(1500):
+        for _ in range(600):
             n = rng.getrandbits(128) if rng.random() < 0.8 else rng.getrandbits(40)
             u = uuid.UUID(int=n)
             try:
@@ -242,23 +262,27 @@ def concurrent_roundtrips(ctx, alpha, seed):
                 back = short_uuid.uuid_from_short_str(s)
             except Exception as err:
                 errors.append(("raises", str(n), repr(err)))
-                return
+                continue
             if s != model_encode(n, alpha) or back != u:
                 errors.append(("differs", str(n), s))
-                return
 
     threads = [threading.Thread(target=worker, args=(k,)) for k in range(4)]
     try:
         for t in threads:
             t.start()
         for t in threads:
-            t.join(60)
+            t.join(120)
     finally:
         sys.setswitchinterval(old)
-    ctx.count("concurrent_roundtrips", 4 * 1500)
-    if errors:
-        ctx.violation("concurrent-callers-disturb-each-other", errors[0],
-                      {"kind": "int", "value": errors[0][1], "class": "concurrent"})
+        for c in codes:
+            mon.set_local_events(4, c, 0)
+        mon.register_callback(4, mon.events.LINE, None)
+        mon.free_tool_id(4)
+    ctx.count("concurrent_roundtrips", 4 * 600)
+    ctx.count("yields_injected_inside_conversions", injected[0])
+    for err in errors[:50]:
+        ctx.violation("concurrent-callers-disturb-each-other", err,
+                      {"kind": "int", "value": err[1], "class": "concurrent"})
 
 
 def run_shard(ctx):
